@@ -70,6 +70,12 @@ theorem C14_tgen_l0l0 : op_l0l0_min_tables = "<" := by decide
 /-! Orderings of effects inside one function (`ord_*`: first occurrence of statement A relative to
     statement B in the source of that function). The models perform these effects in this order. -/
 theorem C15_tgen_clamp_before_scan : ord_rewrite_clamp_scan = "before" := by decide
+/-- the #2286 clamp in `subcompact` is guarded by `gcActive` alone — it applies to a compaction into
+    ANY level (a marker is dropped whenever nothing below the target level overlaps, not only in the
+    last level) — and lowers `discardTs` to a positive smaller `gcDiscardTs`: `GcDb.discardTs` -/
+theorem C15_tgen_clamp_cond :
+    cond_subcompact_gc_clamp = "s.kv.gcActive.Load()" ∧
+    cond_subcompact_gc_clamp_inner = "gcMax > 0 && gcMax < discardTs" := by decide
 theorem C10_tgen_manifest_order :
     ord_flush_manifest_wal = "before" ∧ ord_compact_manifest_replace = "before" ∧
     ord_compact_replace_delete = "before" := by decide
